@@ -374,6 +374,9 @@ def check_lookup_expiry(run, ctx):
                             oracle='found and not expired => value returned')
                 elif d['S-'] or d['S0'] or d['Srepl']:
                     run.bad('C06-E1', key + '/fresh-removed', 'a hit removes store entries (%s)' % where, site=r['fn'].name)
+                elif d['S+']:
+                    run.bad('C06-S1', key + '/hit-restores', 'a hit stores the entry again (%s): that gives it a new birth time, so an entry that keeps being read never expires' % where,
+                            site=r['fn'].name, oracle='birth time is written only when a computed value is stored')
                 else:
                     run.ok('C06-E1', '%s/%s/fresh' % (key, describe(r['fields'])), 'fresh: value returned, nothing removed')
         else:
@@ -576,6 +579,127 @@ def check_replacement_before_overflow_test(run, ctx):
     return n
 
 
+def check_replacement_before_fit_test(run, ctx):
+    """C05-E2: where a store drops the old entry of the same key, it does so before the total is compared with max_memory
+    (otherwise the old value is counted and other entries are evicted although the total after replacement fits)"""
+    C = Core(ctx)
+    n = 0
+    for flav, adt in FLAVOURS:
+        fn = C.method(adt, 'insert_with_memory')
+        if fn is None:
+            continue
+        for p in range(6):
+            a = {'policy': p, 'limit': 0, 'max_memory': 1, 'ttl': 0}
+            w = C.weigher(a, {}, root=fn)
+            sp = w.spec(fn)
+            fitn = [nd for nd in sp.nodes if 'cmp:fit' in w.kinds(fn, nd[0])]
+            n += 1
+            if not fitn:
+                continue
+            after = sp.forward_from(fitn)
+            late = [nd for nd in after if nd not in fitn and 'Srepl' in w.kinds(fn, nd[0]) and not _dominated_by_oversize(C, fn, sp, w, nd)]
+            if late:
+                run.bad('C05-E2', '%s/insert_with_memory/replaces-after-fit-test' % flav, '%s sums the stored sizes while the old entry of the key being stored still counts and drops that '
+                        'entry afterwards (%s): re-storing a cached key evicts other entries although the total after replacement fits' % (fn.name, fn.loc(late[0][0])),
+                        site='%s (%s)' % (fn.name, fn.loc(late[0][0])), oracle='never evict while the total fits')
+            else:
+                run.ok('C05-E2', '%s/insert_with_memory/%s' % (flav, POL[p]), 'no own-key replacement after the fit test')
+    return n
+
+
+def check_oversize_drops_old_entry(run, ctx, rule='C01-P3'):
+    """a value too large to cache must not leave the *previous* value of the same key in the cache (it was superseded):
+    on the oversize path, with the key already stored, the key's entry is removed"""
+    C = Core(ctx)
+    n = 0
+    for flav, adt in FLAVOURS:
+        fn = C.method(adt, 'insert_with_memory')
+        if fn is None:
+            continue
+        over = [(xid, bi) + x for (xid, bi), lst in C.cmp_sites(fn).items() for x in lst if x[0] == 'cmp:oversize']
+        if len(over) != 1:
+            continue
+        (xid, bi, kind, si, op, ra, rb) = over[0]
+        otv = C.truth_value(fn, (xid, bi, si), 'oversize')
+        if otv is None:
+            continue
+        member = [(x.id, b) for x in C.scope(fn) for b, t in x.calls() if classify(t) == 'S?']
+        for p in range(6):
+            a = {'policy': p, 'limit': 0, 'max_memory': 1, 'ttl': 0}
+            orc = {(xid, bi, si): otv}
+            for s_ in member:
+                orc[s_] = 1
+            w = C.weigher(a, orc, root=fn)
+            sp = w.spec(fn)
+            n += 1
+            bad = False
+            for n_, vs in sp.path_totals().items():
+                for v in vs:
+                    if _vec(v)['Srepl'] < 1:
+                        bad = True
+            if bad:
+                run.bad(rule, '%s/insert_with_memory/oversize-keeps-old-value' % flav, 'when a value is too large to cache, %s leaves the previous entry of the same key in place: the superseded '
+                        'value keeps being served' % fn.name, site=fn.name, oracle='once the value for some arguments has been replaced the old value is never served again')
+            else:
+                run.ok(rule, '%s/insert_with_memory/%s/oversize' % (flav, POL[p]), 'oversize path removes the key\'s entry')
+    return n
+
+
+def check_store_value_identity(run, ctx, rule='C01-P2'):
+    """what is stored under the key is the value parameter (through CacheEntry::new / the async tuple), and the key is the key parameter"""
+    C = Core(ctx)
+    se = SpecEffects(ctx.prog, {})
+    n = 0
+    for flav, adt in FLAVOURS:
+        for m in ('insert', 'insert_with_memory'):
+            fn = C.method(adt, m)
+            if fn is None:
+                continue
+            own_key = None
+            val_param = None
+            for i in range(1, fn.arg_count + 1):
+                if fn.local_ty(i) == '&str' and own_key is None:
+                    own_key = (fn.id, i)
+            val_param = (fn.id, fn.arg_count)
+            for x in C.scope(fn):
+                ex = Expr(x)
+                for b, t in x.calls():
+                    if classify(t) != 'S+':
+                        continue
+                    n += 1
+                    kr = se.key_root(x, t['args'][1])
+                    v = strip_casts(ex.operand(t['args'][2]))
+                    # value: CacheEntry::new(value) / (value, now, 0), possibly held in a local or captured
+                    src = None
+                    if v[0] == 'call' and v[1] == N.ENTRY + '::new' and v[2]:
+                        src = v[2][0]
+                    elif v[0] == 'agg' and v[1] == 'tuple' and v[2]:
+                        src = v[2][0]
+                    elif v[0] == 'field' and v[1] == ('param', 1):
+                        # captured entry: look at what the parent captured
+                        par, ops = ctx.prog.closure_capture_operands(x)
+                        k = int(v[2]) if v[2].isdigit() else None
+                        if ops is not None and k is not None and k < len(ops):
+                            pv = strip_casts(Expr(par).operand(ops[k]))
+                            if pv[0] == 'call' and pv[1] == N.ENTRY + '::new' and pv[2]:
+                                src = ('in-parent', par, pv[2][0])
+                    okv = False
+                    if src is not None:
+                        if src[0] == 'in-parent':
+                            okv = src[2] == ('param', val_param[1]) and src[1].id == fn.id
+                        else:
+                            okv = (src == ('param', val_param[1]) and x.id == fn.id)
+                    key = '%s/%s' % (flav, m)
+                    if kr != own_key:
+                        run.bad(rule, key + '/stores-under-other-key', '%s stores under %s, which is not its key parameter' % (fn.name, show(ex.operand(t['args'][1]))), site='%s (%s)' % (x.name, x.loc(b)))
+                    elif not okv:
+                        run.bad(rule, key + '/stores-other-value', '%s stores %s, which is not an entry freshly built from its value parameter: a re-store can keep (part of) the old entry'
+                                % (fn.name, show(v)), site='%s (%s)' % (x.name, x.loc(b)), oracle='store(key, value) stores exactly the given value')
+                    else:
+                        run.ok(rule, key + '/value-identity', 'stores CacheEntry::new(value) / (value, now, 0) under the key parameter')
+    return n
+
+
 def _dominated_by_oversize(C, fn, sp, w, nd):
     """is the node only reachable through a block carrying the oversize comparison's true edge? approximated by:
     the oversize comparison lies on every path from entry to the node and the node leads to return without storing"""
@@ -623,6 +747,17 @@ def eviction_rows(ctx):
             continue
         member = [(x.id, b) for x in C.scope(fn) for b, t in x.calls() if classify(t) == 'S?']
         selected = [(x.id, b) for x in C.scope(fn) for b, t in x.calls() if classify(t) in ('Q-front', 'Q-at', 'Q-back')]
+        # calls of the victim selectors (LFU/ARC/TLRU): with stored keys in the queue they find a victim
+        sel_ids = {b_.id for (_, _, b_) in C.selectors()}
+        for x in C.scope(fn):
+            for b, t in x.calls():
+                if any(cb.id in sel_ids for cb in ctx.prog.lookup(t)):
+                    selected.append((x.id, b))
+            # a selector run inside LocalKey::with(closure): the `with` call returns its result
+            for b, t in x.calls():
+                for cb in ctx.prog.closures_passed(t):
+                    if any(any(c2.id in sel_ids for c2 in ctx.prog.lookup(t2)) for _, t2 in cb.calls()) and callee_name(t) == 'std::thread::local::LocalKey::with':
+                        selected.append((x.id, b))
         for p in range(6):
             for mem_oracle in (1, 0):
                 a = {'policy': p, 'limit': 1, 'max_memory': 0, 'ttl': 1}
@@ -660,6 +795,9 @@ def check_one_victim(run, ctx, rule_p1='C04-P1', rule_p2='C04-P2'):
             if d['S-'] > 1:
                 run.bad(rule_p1, key + '/two-victims', 'an overflowing store can remove more than one entry (%s)' % where, site=r['fn'].name,
                         oracle='at most one store removal per overflow on every path')
+            elif r['member'] == 1 and d['S-'] == 0 and p != 'Random':
+                run.bad(rule_p1, key + '/overflow-unanswered', 'the cache is over its limit and a victim is available, but a path removes nothing (%s): the cache keeps more than `limit` entries' % where,
+                        site=r['fn'].name, oracle='an overflowing store removes exactly one entry')
             elif r['member'] == 1 and d['S-'] != min(1, d['Qrem']) and not (d['S-'] == 0 and d['Qrem'] == 0):
                 run.bad(rule_p2, key + '/victim-half-removed', 'the victim is removed from the %s but not from the %s (%s)' % (
                     'queue' if d['Qrem'] else 'store', 'store' if d['Qrem'] else 'queue', where), site=r['fn'].name,
